@@ -243,14 +243,17 @@ def explore_program(ck, names, constraints=None, allow_stale=False, policy=None,
                 out = ck.replay([sc])[0]
                 desc = f"{label} with steps {' '.join(f'{t}:{op}' for t, op in sched)} (then free running), limit {mval(m, memory_limit) if memory_limit is not None else '-'}: " \
                        f"engine: {p.info}; native: " + (f"client(s) {out['hung']} never return (3 s watchdog)" if out.get('hung') else 'all commands returned')
-                if not out.get('hung'):
+                if not out.get('hung') and not policy:
                     # the loop may sit between two yield points (atomics without a hook in between): repeat the same commands
                     # free running - thread 0 re-arms the key (delete) before each round, a request CAS moves on by 2^20 per round
                     from .wire import frame
                     from . import store_replay as SR
                     sc2 = dict(sc)
-                    sc2.update({'stress_rounds': 200000, 'rearm': [frame(0x04, SR.key_bytes(0)).hex()], 'cas_step': 1 << 20, 'watchdog_ms': 12000})
-                    out2 = ck.replay([sc2], timeout=60)[0]
+                    sc2.update({'stress_rounds': 100000, 'rearm': [frame(0x04, SR.key_bytes(0)).hex()], 'cas_step': 1 << 20, 'watchdog_ms': 12000})
+                    try:
+                        out2 = ck.replay([sc2], timeout=60)[0]
+                    except Exception:
+                        out2 = {}
                     if out2.get('hung'):
                         return True, desc + f"; repeated free running (up to 200000 rounds, key re-armed by a delete before each round): client(s) {out2['hung']} never return (12 s watchdog)", sc2
                 return (True if out.get('hung') else None), desc, sc
